@@ -65,12 +65,43 @@ fn both<T, const N: usize>() {}
 #[divan::bench]
 fn top() {}
 
+// ---- argument identity under --test: which VALUE does each row receive? -------------
+// `Size` has a lossy Display (three different values print "1KB"); `strs` has equal
+// Strings in separate slots.  The bodies report what they received on stderr.
+const SIZES: [u32; 6] = [1024, 2048, 1100, 512, 1500, 10240];
+const STRS: [&str; 4] = ["dup", "x", "dup", "a"];
+
+#[derive(Clone, Copy)]
+struct Size(u32);
+
+impl std::fmt::Display for Size {
+    fn fmt(&self, f: &mut std::fmt::Formatter<'_>) -> std::fmt::Result {
+        write!(f, "{}KB", self.0 / 1024)
+    }
+}
+
+mod recv {
+    use super::{Size, SIZES, STRS};
+
+    #[divan::bench(args = SIZES.map(Size))]
+    fn lossy(s: Size) {
+        eprintln!("RECV lossy {}", s.0);
+    }
+
+    #[divan::bench(args = STRS.map(String::from))]
+    fn strs(s: &String) {
+        eprintln!("RECV strs {}", s as *const String as usize);
+    }
+}
+
 /// What the macros cannot be asked for at run time: arguments and generic
 /// parameters by raw name, in declaration order.
 fn extra(raw: &str) -> &'static str {
     match raw {
         "with_args" => "0=10,9,1,100,2",
         "str_args" => "1=1.5,1.10,1.5a,abc,-3",
+        "lossy" => "6=1KB,2KB,1KB,0KB,1KB,10KB",
+        "strs" => "7=dup,x,dup,a",
         "alpha" => "t:0=u8,1=u16,4=String,2=i32,6=%26str",
         "zeta" => "c:i:3=3,-1=-1,-10=-10,0=0,-5=-5,12=12",
         "both" => "t:1=u16,4=String,0=u8!c:i:2=2,10=10,1=1",
@@ -135,6 +166,10 @@ fn describe() {
 fn main() {
     if std::env::args().nth(1).as_deref() == Some("describe") {
         describe();
+    } else if std::env::args().nth(1).as_deref() == Some("describe-args") {
+        // declared values and labels, in declaration order
+        println!("lossy {}", SIZES.iter().map(|&v| format!("{}={}", v, Size(v))).collect::<Vec<_>>().join(","));
+        println!("strs {}", STRS.join(","));
     } else {
         divan::main();
     }
